@@ -58,7 +58,7 @@ SHAPES = ['role:x', '@', 'rule:{0}', 'not rule:{0}', 'rule:{0} and rule:{1}', 'r
 def run(run, binfo):
     tier, rng = run.tier, run.rng
     sets = []
-    names = ['a', 'b', 'c'] if tier == 'quick' else ['a', 'b', 'c', 'd']
+    names = ['a', 'b', 'default'] if tier == 'quick' else ['a', 'b', 'default', 'd']
     # exhaustive: every assignment of a shape (instantiated with every pair of names) to each name
     bodies = []
     for sh in SHAPES:
@@ -82,6 +82,8 @@ def run(run, binfo):
     for _ in range(nrand):
         k = rng.randint(1, 6)
         nm = ['n%d' % i for i in range(k)]
+        if rng.random() < 0.3:
+            nm[rng.randrange(k)] = 'default'        # a rule named like the enforcer's default rule
         rules = {}
         for n in nm:
             leaves = ['role:x', 'role:y'] + ['rule:' + rng.choice(nm) for _ in range(2)]
@@ -128,6 +130,8 @@ def run(run, binfo):
     finally:
         sys.setrecursionlimit(old)
     run.count('clean_rules_evaluated', len(clean_cases))
+    nval = validator_cases(run, bad_corr)
+    run.count('validator_cases', nval)
     run.sample({'rules': sets[3]})
     run.sample({'rules': sets[-1]})
     run.extra['correspondence_disagreements'] = len(bad_corr)
@@ -141,6 +145,88 @@ def run(run, binfo):
                 'self-loops, long cycles, diamonds, undefined names): Enforcer.check_rules (result and reported names) vs the '
                 'model and vs an independent graph analysis; every rule of every clean set is enforced under a recursion limit '
                 'of 400. non-trivial = distinct rule sets with a problem' % (nexh, names, len(SHAPES), nrand))
+
+
+def validator_cases(run, bad_corr):
+    """oslopolicy-validator: return code vs the model and vs the statement"""
+    import logging
+    import os
+    import shutil
+    from unittest import mock
+    from oslo_config import cfg
+    from oslo_policy import generator, policy, opts
+    from loadsim import FsSim, enc_defaults, fresh_root
+    root = fresh_root('c13val')
+    logging.getLogger('oslo_policy').addHandler(logging.NullHandler())
+    regsets = [[('a', 'role:x', None, None), ('b', '!', None, None), ('c', 'rule:a', None, None)]]
+    values = ['role:x', '!', '@', 'rule:a', 'rule:nope', 'not rule:nope', 'rule:b and rule:c', '(role:admin))',
+              'role:admin or', 'and', None, '', "'q'", 'not', 'rule:self']
+    n = 0
+    import itertools
+    files = [None, {}]
+    for va, vb in itertools.product(values, values[:9]):
+        files.append({'a': va, 'b': vb})
+    for v in values:
+        files.append({'b': v})
+        files.append({'unknown': v, 'a': 'role:x'})
+        files.append({'a': 'rule:b', 'b': 'rule:a' if v == '!' else v})
+    files.append({'self': 'rule:self', 'a': '@'})
+    for regs in regsets:
+        for f in files:
+            shutil.rmtree(root, ignore_errors=True)
+            os.makedirs(root)
+            fs = FsSim(root, dirs=[])
+            if f is not None:
+                fs.write_main(f, 'yaml')
+            fs.sync()
+            conf = cfg.CONF
+            conf.reset()
+            opts._register(conf)
+            conf(['--config-dir', root], project='verif')
+            conf.set_override('policy_file', os.path.join(root, 'policy.yaml'), group='oslo_policy')
+            conf.set_override('policy_dirs', [], group='oslo_policy')
+            e = policy.Enforcer(conf)
+            from loadsim import mk_default
+            for d in regs:
+                e.register_default(mk_default(d))
+            import io
+            import contextlib
+            try:
+                with mock.patch.object(generator, '_get_enforcer', return_value=e), \
+                        contextlib.redirect_stdout(io.StringIO()):
+                    rc = generator._validate_policy('ns')
+            except Exception as ex:   # noqa
+                rc = 'EXC ' + type(ex).__name__
+            finally:
+                logging.disable(logging.CRITICAL)
+                conf.clear_override('policy_file', group='oslo_policy')
+                conf.clear_override('policy_dirs', group='oslo_policy')
+            n += 1
+            run.evaluations += 1
+            from common import run_batch
+            m = run_batch([[18, [1, enc_defaults(regs), 1], fs.wire()]])[0]
+            if m != rc:
+                bad_corr.append(({'validator_file': f}, m, rc))
+            # the statement, read directly
+            regnames = {d[0] for d in regs}
+            if f is None:
+                want = 1
+            else:
+                rules = dict((d[0], d[1]) for d in regs)
+                rules.update({k: v for k, v in f.items()})
+                und, cyc = graph_spec({k: (v if isinstance(v, str) else '!') for k, v in rules.items()})
+                bad = bool(und or cyc) or any(k not in regnames for k in f)
+                for k, v in f.items():
+                    parsed = str(policy._parser.parse_rule(v)) if isinstance(v, (str, list)) else '!'
+                    if parsed == '!' and v not in ('!', None):
+                        bad = True
+                want = 1 if bad else 0
+            if rc != want:
+                run.violation('validator', 'oslopolicy-validator returns %r for file %r, documented %r' % (rc, f, want),
+                              {'kind': 'failing-input', 'suite': 'spec-c13-validator', 'input': {'file': f},
+                               'expected': want, 'observed': rc})
+    shutil.rmtree(root, ignore_errors=True)
+    return n
 
 
 def replay(run, rep):
